@@ -23,7 +23,7 @@ REQUIRED = {"C01": ["steps_compared", "instr_cases", "prog_cases", "faults_compa
 def plan(prop, tier, seed):
     if tier == "quick":
         return [{"kind": "instr", "n": 2600, "shard": i} for i in range(12)] + [{"kind": "prog", "n": 260, "shard": i} for i in range(4)] + [{"kind": "directed", "shard": 0}]
-    return [{"kind": "instr", "n": 60000, "shard": i} for i in range(20)] + [{"kind": "prog", "n": 3500, "shard": i} for i in range(12)] + [{"kind": "directed", "shard": 0}]
+    return [{"kind": "instr", "n": 150000, "shard": i} for i in range(32)] + [{"kind": "prog", "n": 12000, "shard": i} for i in range(16)] + [{"kind": "directed", "shard": 0}]
 
 
 def run_shard(spec, res):
